@@ -252,6 +252,9 @@ class Cover(Device):
         if self.supports_stop:
             # If device does not support positioning, we stop the device when position is reached
             self._start_auto_stopper(current_position, position)
+        else:
+            # nothing to stop it with - still our own telegram, not a command from the bus
+            self._auto_stop_requested += 1
 
     def _start_position_update(self, target_position: int) -> None:
         """Start the travel calculator and run device callbacks."""
